@@ -135,7 +135,17 @@ func (c *Case) uniqArgs(r Run, cat, mrg []string, noSingleton bool) []string {
 	return args
 }
 
+// tail quotes the end of a command's stderr; a Go panic / runtime fatal error is quoted from its first line.
 func tail(b []byte) string {
+	for _, mark := range []string{"panic:", "fatal error:"} {
+		if i := bytes.Index(b, []byte(mark)); i >= 0 {
+			b = b[i:]
+			if len(b) > 2500 {
+				b = b[:2500]
+			}
+			return string(b)
+		}
+	}
 	if len(b) > 800 {
 		b = b[len(b)-800:]
 	}
